@@ -100,7 +100,53 @@ def content_scripts(tier, rng, tid0):
         ops.append({"o": "mark", "w": 0, "h": k})
         if gi % 2:
             ops.append({"o": "loadsynth", "w": 0, "recs": recs, "fmt": "json"})
-        scripts.append({"tid": tid, "marker": "simple", "worlds": 1, "ops": ops})
+        scripts.append({"tid": tid, "marker": "uuid" if gi % 3 == 2 else "simple", "worlds": 1, "ops": ops})
+        tid += 1
+    # "load game" into the same world: save, delete everything (the world is maintained, the marker
+    # allocator is not: its mapping goes stale), load the data back, then once more
+    for gi in range(50 if tier == "quick" else 600):
+        n = rng.randint(2, 5)
+        ops = [{"o": "create", "w": 0, "a": rng.choice([None, 40 + i]), "b": rng.choice([None, -i - 1])} for i in range(n)]
+        marked = sorted(rng.sample(range(n), rng.randint(1, n)))
+        for i in range(n):
+            if rng.random() < 0.7:
+                pool = marked if i in marked else list(range(n))
+                ops.append({"o": "set", "w": 0, "h": i, "c": "r", "v": [rng.choice(pool) for _ in range(rng.randint(0, 3))]})
+        for i in marked:
+            ops.append({"o": "mark", "w": 0, "h": i})
+        fmt = rng.choice(["json", "ron"])
+        ops.append({"o": "save", "w": 0, "rec": False, "fmt": fmt})
+        order = list(range(n))
+        rng.shuffle(order)
+        for i in order:
+            ops.append({"o": rng.choice(["delete", "delete", "edelete"]), "w": 0, "h": i})
+        ops.append({"o": "maintain", "w": 0})
+        if gi % 4 == 3:
+            ops.append({"o": "amaintain", "w": 0})
+        perm = list(range(len(marked)))
+        rng.shuffle(perm)
+        ops.append({"o": "load", "w": 0, "blob": 0, "perm": perm if gi % 2 else None})
+        ops.append({"o": "load", "w": 0, "blob": 0})
+        if gi % 3 == 0:
+            ops.append({"o": "save", "w": 0, "rec": False, "fmt": fmt})
+            ops.append({"o": "load", "w": 1, "blob": 1})
+        scripts.append({"tid": tid, "marker": "uuid" if gi % 2 else "simple", "worlds": 2, "ops": ops})
+        tid += 1
+    # data with well-known ids (0 = the nil uuid for UuidMarker) that other records refer to, loaded twice
+    for gi in range(30 if tier == "quick" else 300):
+        k = rng.randint(2, 4)
+        ids = sorted(rng.sample(range(0, 6), k))
+        if gi % 2 == 0 and 0 not in ids:
+            ids[0] = 0
+        recs = [{"m": m, "a": 90 + m, "b": rng.choice([None, -m - 1]), "r": rng.choice([None, [rng.choice(ids) for _ in range(rng.randint(1, 3))]])} for m in ids]
+        if gi % 3 == 0:
+            recs.reverse()
+        ops = [{"o": "loadsynth", "w": 0, "recs": recs, "fmt": rng.choice(["json", "ron"])},
+               {"o": "loadsynth", "w": 0, "recs": recs, "fmt": "json"},
+               {"o": "save", "w": 0, "rec": False, "fmt": "json"},
+               {"o": "load", "w": 1, "blob": 0},
+               {"o": "load", "w": 1, "blob": 0}]
+        scripts.append({"tid": tid, "marker": "uuid" if gi % 3 != 2 else "simple", "worlds": 2, "ops": ops})
         tid += 1
     # gaps in the live marker ids: delete an older marked entity, maintain, allocator maintain, mark again
     for gi in range(40 if tier == "quick" else 400):
